@@ -1,3 +1,16 @@
 module verif.local/gcsim
 
 go 1.23.0
+
+require (
+	github.com/go-critic/go-critic v0.0.0
+	golang.org/x/tools v0.32.0
+)
+
+require (
+	github.com/go-toolsmith/astfmt v1.1.0 // indirect
+	golang.org/x/mod v0.24.0 // indirect
+	golang.org/x/sync v0.13.0 // indirect
+)
+
+replace github.com/go-critic/go-critic => /repo
